@@ -7,6 +7,7 @@ package cluster
 // actor for every message except Started (so zeroconf is never started), with the real context/sender.
 
 import (
+	"sync/atomic"
 	"unsafe"
 	"reflect"
 	"fmt"
@@ -145,6 +146,36 @@ func runMembersHistory(t testing.TB, selfKinds []string, snaps [][]string) strin
 	e.SpawnProc(sub)
 	e.Subscribe(sub.pid)
 	c.Start()
+	// background askers: a kind that the observing node itself registered is advertised by every view (the node is in every
+	// snapshot), so HasKind of it must be true at every moment, also while a snapshot is being processed
+	var bgBad, bgStop int32
+	var bgWG sync.WaitGroup
+	hasAct := false // an activation attempt blocks the agent for a request timeout: queries time out meanwhile, which says nothing
+	for _, sn := range snaps {
+		if len(sn) == 1 && strings.HasPrefix(sn[0], "!act") {
+			hasAct = true
+		}
+	}
+	if len(selfKinds) > 0 && !hasAct {
+		for g := 0; g < 3; g++ {
+			bgWG.Add(1)
+			go func() {
+				defer bgWG.Done()
+				defer func() {
+					if recover() != nil {
+						atomic.AddInt32(&bgBad, 1)
+					}
+				}()
+				for atomic.LoadInt32(&bgStop) == 0 {
+					t0 := time.Now()
+					// (an answer that took as long as the request timeout is a timed-out query on a loaded machine, not an answer)
+					if !c.HasKind(selfKinds[0]) && time.Since(t0) < 300*time.Millisecond {
+						atomic.AddInt32(&bgBad, 1)
+					}
+				}
+			}()
+		}
+	}
 	var out []string
 	for si, snap := range snaps {
 		if len(snap) == 1 && strings.HasPrefix(snap[0], "!act") {
@@ -177,6 +208,11 @@ func runMembersHistory(t testing.TB, selfKinds []string, snaps [][]string) strin
 		sub.mu.Unlock()
 		sort.Strings(evs)
 		out = append(out, "view="+view+" kinds="+strings.Join(has, "+")+" ev="+strings.Join(evs, ","))
+	}
+	atomic.StoreInt32(&bgStop, 1)
+	bgWG.Wait()
+	if n := atomic.LoadInt32(&bgBad); n > 0 {
+		out = append(out, fmt.Sprintf("BACKGROUND-HASKIND-FALSE(%d times for the node's own kind %s)", n, selfKinds[0]))
 	}
 	<-e.Poison(c.PID()).Done()
 	return strings.Join(out, ";")
@@ -231,7 +267,7 @@ func TestVerifMembers(t *testing.T) {
 	}
 	r := vgen.NewRng(vgen.Seed())
 	n := vgen.Scale(1000, 6000)
-	others := []string{"B", "C", "D", "E", "F", "G"}
+	others := []string{"B", "C", "D", "E", "F", "G", "b"} // "b" and "B" differ only in case: two members
 	for i := 0; i < n; i++ {
 		rr := r.Fork()
 		var selfKinds []string
